@@ -297,6 +297,11 @@ pub fn gen_star_operand(r: &mut Rng, g: i64) -> Operand {
             }
         }
         if ring.len() >= 3 {
+            if r.chance(1, 2) {
+                ring.reverse();
+            }
+            let k = r.below(ring.len() as u64) as usize;
+            ring.rotate_left(k);
             let f = ring[0];
             ring.push(f);
             o.push(vec![ring]);
@@ -393,6 +398,88 @@ pub fn region_diff(a: &Operand, b: &Operand) -> Option<(f64, f64)> {
         }
     }
     None
+}
+
+/// all rings read together by the even-odd rule (insensitive to how rings are grouped into polygons)
+pub fn contains_evenodd(o: &Operand, x: f64, y: f64) -> bool {
+    o.iter().flatten().filter(|r| ring_contains(r, x, y)).count() % 2 == 1
+}
+
+fn dist_to_seg(a: [f64; 2], b: [f64; 2], x: f64, y: f64) -> f64 {
+    let (dx, dy) = (b[0] - a[0], b[1] - a[1]);
+    let l2 = dx * dx + dy * dy;
+    let t = if l2 == 0.0 { 0.0 } else { (((x - a[0]) * dx + (y - a[1]) * dy) / l2).clamp(0.0, 1.0) };
+    let (px, py) = (a[0] + t * dx - x, a[1] + t * dy - y);
+    (px * px + py * py).sqrt()
+}
+
+fn near_any_edge(os: &[&Operand], x: f64, y: f64, tol: f64) -> bool {
+    os.iter().any(|o| o.iter().flatten().any(|r| r.windows(2).any(|w| dist_to_seg(w[0], w[1], x, y) <= tol)))
+}
+
+/// Witness points: centres of the cells of the compressed grid over all vertex coordinates of `os`.
+/// For rectilinear regions every cell is uniformly inside or outside (exact); otherwise points within
+/// `tol` of an edge are skipped (sampling: may miss a difference, cannot invent one).
+fn witness_points(os: &[&Operand]) -> (Vec<(f64, f64)>, f64, bool) {
+    let mut xs: Vec<f64> = os.iter().flat_map(|o| o.iter().flatten().flatten().map(|c| c[0])).filter(|v| v.is_finite()).collect();
+    let mut ys: Vec<f64> = os.iter().flat_map(|o| o.iter().flatten().flatten().map(|c| c[1])).filter(|v| v.is_finite()).collect();
+    xs.sort_by(|p, q| p.partial_cmp(q).unwrap());
+    xs.dedup();
+    ys.sort_by(|p, q| p.partial_cmp(q).unwrap());
+    ys.dedup();
+    let exact = os.iter().all(|o| is_rectilinear(o));
+    let mag = xs.iter().chain(ys.iter()).fold(1.0f64, |m, v| m.max(v.abs()));
+    let tol = if exact { 0.0 } else { 1e-7 * mag };
+    let mut pts = Vec::new();
+    for i in 0..xs.len().saturating_sub(1) {
+        let x = xs[i] + (xs[i + 1] - xs[i]) / 2.0;
+        for j in 0..ys.len().saturating_sub(1) {
+            let y = ys[j] + (ys[j + 1] - ys[j]) / 2.0;
+            if exact || !near_any_edge(os, x, y, tol) {
+                pts.push((x, y));
+            }
+        }
+    }
+    (pts, tol, exact)
+}
+
+/// Region comparison of two results (polygon reading); exact when both are rectilinear, sampled otherwise.
+pub fn region_diff_any(a: &Operand, b: &Operand) -> Option<(f64, f64)> {
+    let (pts, _, _) = witness_points(&[a, b]);
+    pts.into_iter().find(|(x, y)| contains(a, *x, *y) != contains(b, *x, *y))
+}
+
+/// Small executable reference model of the Boolean operation itself: membership of witness points in the
+/// operands combined by `op` (0 intersection, 1 union, 2 difference, 3 xor) against membership in the result,
+/// the result's rings read by the even-odd rule. Used only where the differential reference is unavailable.
+pub fn model_mismatch(a: &Operand, b: &Operand, op: u8, res: &Operand) -> Option<(f64, f64)> {
+    let (pts, _, _) = witness_points(&[a, b, res]);
+    pts.into_iter().find(|(x, y)| {
+        let (ia, ib) = (contains(a, *x, *y), contains(b, *x, *y));
+        let want = match op {
+            0 => ia && ib,
+            1 => ia || ib,
+            2 => ia && !ib,
+            _ => ia != ib,
+        };
+        contains_evenodd(res, *x, *y) != want
+    })
+}
+
+/// no edge of `a` shares a point with an edge of `b` (exact for integer coordinates)
+pub fn edges_apart(a: &Operand, b: &Operand) -> bool {
+    for ra in a.iter().flatten() {
+        for wa in ra.windows(2) {
+            for rb in b.iter().flatten() {
+                for wb in rb.windows(2) {
+                    if segs_meet(wa[0], wa[1], wb[0], wb[1]) {
+                        return false;
+                    }
+                }
+            }
+        }
+    }
+    true
 }
 
 pub fn is_rectilinear(o: &Operand) -> bool {
